@@ -43,7 +43,7 @@ pub mod vs {
     pub fn streams_equal(_i: usize, _j: usize) -> bool { false }
     pub fn streams_reset() {}
     /// natively the ring uses its real hash functions; scenarios sweep real keys instead (vs::NATIVE)
-    pub fn ring_set(_table: [[u64; 2]; 5], _key_pos: u64) {}
+    pub fn ring_set(_layout: usize, _key_pos: u64) {}
     pub const NATIVE: bool = true;
 }
 
